@@ -308,7 +308,7 @@ def result3(ev, stmts):
     return FALL
 
 
-def reaches(cfg, ev, target):
+def reaches(cfg, ev, target, avoid=None):
     """Path-sensitive reachability of the expression `target` in a control-flow graph under the bindings of ev: branch nodes
     whose condition evaluates (three-valued) to a definite value are followed only along that edge.  Sound for quantities
     that are not written on the way (callers bind parameters and single-assignment locals)."""
@@ -321,13 +321,31 @@ def reaches(cfg, ev, target):
         seen.add(n.id)
         if n.e is target or (n.kind == 'decl' and isinstance(n.info, dict) and n.info.get('init') is target):
             return True
+        if avoid is not None and avoid(n):
+            continue            # paths through this node do not count (e.g. the storage was released here)
         want = None
         if n.kind == 'br' and n.e is not None:
             cv = const_val_(n.e)
             want = bool(cv) if cv is not None else ev.ev3(n.e)
+        swv = None
+        if n.kind == 'sw' and n.e is not None:
+            try:
+                swv = ev.ev(n.e)
+            except Undecidable:
+                swv = None
+            if not isinstance(swv, int):
+                swv = None
         for m, lab in n.succ:
             if want is not None and lab in (True, False) and lab != want:
                 continue
+            if swv is not None:
+                # a switch on an evaluable value: only the matching case label (else default / fall out) is followed
+                hit = any((v2 is None and swv == v) or (v2 is not None and v <= swv <= v2) for v, v2 in n.info.get('cases', []) if v is not None)
+                if isinstance(lab, tuple) and lab[0] == 'case':
+                    if lab[1] is None or not ((lab[2] is None and swv == lab[1]) or (lab[2] is not None and lab[1] <= swv <= lab[2])):
+                        continue
+                elif lab in ('default', 'nodefault') and hit:
+                    continue
             work.append(m)
     return False
 
